@@ -978,7 +978,7 @@ func (ev *evaluator) convertCell(c Cell, from, to Kind) Cell {
 		case KFloat:
 			v, ok := ftoi(c.F())
 			if !ok {
-				return Cell{P: ev.poison("conversion of a NaN, infinite or out-of-range floating-point value to int is undefined (GLSL 4.60 §5.4.1)")}
+				return Cell{P: ev.poison(fmt.Sprintf("conversion of a NaN, infinite or out-of-range floating-point value (%g) to int is undefined (GLSL 4.60 §5.4.1)", c.F()))}
 			}
 			return i32Cell(v)
 		}
@@ -989,7 +989,7 @@ func (ev *evaluator) convertCell(c Cell, from, to Kind) Cell {
 		case KFloat:
 			v, ok := ftou(c.F())
 			if !ok {
-				return Cell{P: ev.poison("conversion of a negative, NaN, infinite or out-of-range floating-point value to uint is undefined (GLSL 4.60 §5.4.1)")}
+				return Cell{P: ev.poison(fmt.Sprintf("conversion of a negative, NaN, infinite or out-of-range floating-point value (%g) to uint is undefined (GLSL 4.60 §5.4.1)", c.F()))}
 			}
 			return u32Cell(v)
 		}
